@@ -117,6 +117,22 @@ def genHistory (pipe : String) (n : Nat) : G (List String) := do
         known := (sc, kn') :: known.filter (fun x => x.1 != sc)
         out := out ++ [pktLine pipe e clock (encode m)] ++ exp
         continue
+      -- a template set whose second record is cut short by the set length: the set is refused as a whole — its first,
+      -- complete record is NOT learned (a data set of that id right afterwards still finds no template)
+      if (← chance 1 12) then
+        match ((List.range 30).map (· + 700)).find? (fun t => (kn.lookup t).isNone) with
+        | some t =>
+          let rec1 : Bytes := encBE 2 t ++ encBE 2 2 ++ encBE 2 1 ++ encBE 2 4 ++ encBE 2 2 ++ encBE 2 4
+          let rec2 : Bytes := encBE 2 (t + 40) ++ encBE 2 3 ++ encBE 2 1 ++ encBE 2 4
+          let set : Bytes := encBE 2 (if version = 9 then 0 else 2) ++ encBE 2 (4 + rec1.length + rec2.length) ++ rec1 ++ rec2
+          let hdr (body : Bytes) (cnt : Nat) : Bytes :=
+            if version = 9 then encBE 2 9 ++ encBE 2 cnt ++ encBE 4 1 ++ encBE 4 2 ++ encBE 4 3 ++ encBE 4 dom ++ body
+            else encBE 2 10 ++ encBE 2 (16 + body.length) ++ encBE 4 2 ++ encBE 4 3 ++ encBE 4 dom ++ body
+          let dataSet : Bytes := encBE 2 t ++ encBE 2 12 ++ (← bytesOf 8)
+          out := out ++ [pktLine pipe e clock (hdr set 2), "expect @res err", "expect @count 0",
+                         pktLine pipe e (clock + 1) (hdr dataSet 1), "expect @res err:template-not-found", "expect @count 0"]
+          continue
+        | none => pure ()
       let (m, kn', count, tnf) ← genScopedMsg version dom kn foreign
       known := (sc, kn') :: known.filter (fun x => x.1 != sc)
       -- an IPFIX message whose last set is broken (reserved id, impossible length): the datagram is refused,
